@@ -174,46 +174,51 @@ func TestVerifC12(t *testing.T) {
 	// all at once: fully populated message per root, through the public interface and through the interceptor
 	ti := NewTranslationInterceptor(log.NewNoopLogger(), []Translator{tr})
 	var populated int64
-	vfParallel(len(roots), func(i int) {
-		r := roots[i]
-		if replayFilter != "" && !strings.HasPrefix(replayFilter, r.String()+"|(all)") {
-			return
-		}
-		value := vfLocalNS
-		if r.Response {
-			value = vfRemoteNS
-		}
-		msg := vrt.PopulateNames(r.MD, value)
-		c := vfC12Case{Root: r.String(), Path: "(all)", Variant: "fully-populated"}
-		vfC12Check(res, tr, r, proto.Clone(msg), "fully-populated:"+string(r.MD.Name()), "fully populated message", c, st)
-		atomic.AddInt64(&populated, 1)
-		// the same through the unary interceptor chain: the request as the handler sees it / the response as returned
-		if !r.Response {
-			req := proto.Clone(msg)
-			ref := proto.Clone(msg)
-			_, _ = vrt.RefTranslateNames(ref, map[string]string{vfLocalNS: vfRemoteNS})
-			var seen proto.Message
-			_, _ = ti.Intercept(context.Background(), req, &grpc.UnaryServerInfo{FullMethod: r.Full}, func(ctx context.Context, q any) (any, error) {
-				seen = proto.Clone(q.(proto.Message))
-				return nil, nil
-			})
-			if seen != nil {
-				if eq, _ := vrt.CanonEqual(seen, ref); !eq {
-					res.Violate("untranslated/interceptor:"+string(r.MD.Name()), fmt.Sprintf("%s through TranslationInterceptor.Intercept: the handler saw a request that differs from the reference translation", r), c)
+	// every repeated message field with one element, then with two (a walk that stops after the first element of its kind)
+	for _, listLen := range []int{1, 2} {
+		vrt.PopulateListLen = listLen
+		vfParallel(len(roots), func(i int) {
+			r := roots[i]
+			if replayFilter != "" && !strings.HasPrefix(replayFilter, r.String()+"|(all)") {
+				return
+			}
+			value := vfLocalNS
+			if r.Response {
+				value = vfRemoteNS
+			}
+			msg := vrt.PopulateNames(r.MD, value)
+			c := vfC12Case{Root: r.String(), Path: "(all)", Variant: fmt.Sprintf("fully-populated, %d element(s) per repeated field", listLen)}
+			vfC12Check(res, tr, r, proto.Clone(msg), "fully-populated:"+string(r.MD.Name()), "fully populated message", c, st)
+			atomic.AddInt64(&populated, 1)
+			// the same through the unary interceptor chain: the request as the handler sees it / the response as returned
+			if !r.Response {
+				req := proto.Clone(msg)
+				ref := proto.Clone(msg)
+				_, _ = vrt.RefTranslateNames(ref, map[string]string{vfLocalNS: vfRemoteNS})
+				var seen proto.Message
+				_, _ = ti.Intercept(context.Background(), req, &grpc.UnaryServerInfo{FullMethod: r.Full}, func(ctx context.Context, q any) (any, error) {
+					seen = proto.Clone(q.(proto.Message))
+					return nil, nil
+				})
+				if seen != nil {
+					if eq, _ := vrt.CanonEqual(seen, ref); !eq {
+						res.Violate("untranslated/interceptor:"+string(r.MD.Name()), fmt.Sprintf("%s through TranslationInterceptor.Intercept: the handler saw a request that differs from the reference translation", r), c)
+					}
+				}
+			} else {
+				resp := proto.Clone(msg)
+				ref := proto.Clone(msg)
+				_, _ = vrt.RefTranslateNames(ref, map[string]string{vfRemoteNS: vfLocalNS})
+				out, _ := ti.Intercept(context.Background(), nil, &grpc.UnaryServerInfo{FullMethod: r.Full}, func(ctx context.Context, q any) (any, error) { return resp, nil })
+				if om, ok := out.(proto.Message); ok {
+					if eq, _ := vrt.CanonEqual(om, ref); !eq {
+						res.Violate("untranslated/interceptor:"+string(r.MD.Name()), fmt.Sprintf("%s through TranslationInterceptor.Intercept: the caller got a response that differs from the reference translation", r), c)
+					}
 				}
 			}
-		} else {
-			resp := proto.Clone(msg)
-			ref := proto.Clone(msg)
-			_, _ = vrt.RefTranslateNames(ref, map[string]string{vfRemoteNS: vfLocalNS})
-			out, _ := ti.Intercept(context.Background(), nil, &grpc.UnaryServerInfo{FullMethod: r.Full}, func(ctx context.Context, q any) (any, error) { return resp, nil })
-			if om, ok := out.(proto.Message); ok {
-				if eq, _ := vrt.CanonEqual(om, ref); !eq {
-					res.Violate("untranslated/interceptor:"+string(r.MD.Name()), fmt.Sprintf("%s through TranslationInterceptor.Intercept: the caller got a response that differs from the reference translation", r), c)
-				}
-			}
-		}
-	})
+		})
+	}
+	vrt.PopulateListLen = 1
 	nTypes := 0
 	st.eventTypes.Range(func(_, _ any) bool { nTypes++; return true })
 	res.Set("evaluations", st.evals)
@@ -224,7 +229,7 @@ func TestVerifC12(t *testing.T) {
 	res.Set("event_types_with_a_namespace_path", int64(nTypes))
 	res.Set("root_types", int64(len(roots)))
 	res.Set("fully_populated_roots", populated)
-	res.Set("rule", "for every request and response type of WorkflowService and AdminService: every structural path from the descriptors (through message fields, repeated fields, map values, every oneof arm, History.events, event-bearing DataBlobs; each message type at most twice per path) to a namespace-name field (string field named namespace / *_namespace, NamespaceInfo.name), minimal message with the mapped name at that path, with and without a skippable event before / after it, and - for paths through a serialized batch - with the batch JSON-encoded instead of proto3; plus one fully populated message per root type; non-trivial = the reference translation finds a mapped name")
+	res.Set("rule", "for every request and response type of WorkflowService and AdminService: every structural path from the descriptors (through message fields, repeated fields, map values, every oneof arm, History.events, event-bearing DataBlobs; each message type at most twice per path) to a namespace-name field (string field named namespace / *_namespace, NamespaceInfo.name), minimal message with the mapped name at that path, with and without a skippable event before / after it, and - for paths through a serialized batch - with the batch JSON-encoded instead of proto3; plus fully populated messages per root type (one and two elements in every repeated message field); non-trivial = the reference translation finds a mapped name")
 	res.Set("exhaustive", replayFilter == "")
 	if len(jobs) > 0 {
 		res.Sample(map[string]any{"root": jobs[0].root.String(), "path": jobs[0].path.String()})
